@@ -1304,7 +1304,8 @@ func (t *tree) errorf(format string, args ...interface{}) {
 		tok = t.token[t.peekCount-1]
 	}
 	t.root = nil
-	format = fmt.Sprintf("template %s:%d:%d: %s", t.name,
+	// (the name goes into a format string: a '%' in it is text.)
+	format = fmt.Sprintf("template %s:%d:%d: %s", strings.Replace(t.name, "%", "%%", -1),
 		t.lex.lineNumber(tok.pos), t.lex.columnNumber(tok.pos), format)
 	panic(
 		errortypes.NewErrFilePosf(
